@@ -115,6 +115,17 @@ class TlcResult:
         return [l for l in self.values() if pref.match(l)]
 
 
+def _die_with_parent():
+    """(child side) ask the kernel to kill this TLC process when the check that started it dies: a check that is
+    killed (time limit, out of memory) must not leave 16 JVMs behind"""
+    try:
+        import ctypes
+        import signal
+        ctypes.CDLL('libc.so.6', use_errno=True).prctl(1, signal.SIGKILL)     # PR_SET_PDEATHSIG
+    except Exception:  # noqa
+        pass
+
+
 def run_tlc(module, cfg_text, workdir, env=None, workers=1, extra=(), timeout=3600,
             heap='2g', simulate=None, deadlock=False):
     """Run TLC on spec/<module>.tla with the given cfg text. Returns TlcResult."""
@@ -140,7 +151,7 @@ def run_tlc(module, cfg_text, workdir, env=None, workers=1, extra=(), timeout=36
     t0 = time.time()
     try:
         p = subprocess.run(cmd, cwd=SPEC_DIR, env=e, stdout=subprocess.PIPE,
-                           stderr=subprocess.STDOUT, timeout=timeout, text=True)
+                           stderr=subprocess.STDOUT, timeout=timeout, text=True, preexec_fn=_die_with_parent)
         out, rc = p.stdout, p.returncode
     except subprocess.TimeoutExpired as ex:
         out = (ex.stdout or b'').decode('utf8', 'replace') if isinstance(ex.stdout, bytes) else (ex.stdout or '')
